@@ -16,20 +16,20 @@ const (
 
 // Server packet codes.
 const (
-	ServerHelloCode        = 0
-	ServerDataCode         = 1
-	ServerExceptionCode    = 2
-	ServerProgressCode     = 3
-	ServerPongCode         = 4
-	ServerEndOfStreamCode  = 5
-	ServerProfileCode      = 6
-	ServerTotalsCode       = 7
-	ServerExtremesCode     = 8
-	ServerTablesStatusCode = 9
-	ServerLogCode          = 10
-	ServerTableColumnsCode = 11
-	ServerPartUUIDsCode    = 12
-	ServerReadTaskCode     = 13
+	ServerHelloCode         = 0
+	ServerDataCode          = 1
+	ServerExceptionCode     = 2
+	ServerProgressCode      = 3
+	ServerPongCode          = 4
+	ServerEndOfStreamCode   = 5
+	ServerProfileCode       = 6
+	ServerTotalsCode        = 7
+	ServerExtremesCode      = 8
+	ServerTablesStatusCode  = 9
+	ServerLogCode           = 10
+	ServerTableColumnsCode  = 11
+	ServerPartUUIDsCode     = 12
+	ServerReadTaskCode      = 13
 	ServerProfileEventsCode = 14
 )
 
